@@ -137,6 +137,11 @@ pub fn generate(prop: &str, seed: u64, idx: u64, tier: Tier) -> Plan {
             p.heal_at_ms = p.heal_at_ms.max(s + 8000);
         }
     }
+    if r.chance(15) {
+        // socket sends that report WouldBlock now and then: the association's sender and the application's senders
+        // get to interleave inside the DTLS / ICE send path as well
+        p.knobs.insert("io_yield_pct".into(), *r.pick(&[5i64, 20, 50]));
+    }
     if prop == "C13" {
         p.knobs.insert("quiet_s".into(), 125);
         if small_window {
